@@ -41,7 +41,17 @@ func newEvalNode(et *ExecutingTask, n *pipeline.EvalNode, d NodeDiagnostic) (*Ev
 			return nil, fmt.Errorf("Failed to compile %v expression: %v", i, err)
 		}
 		en.expressions[i] = statefulExpr
-		refVars := ast.FindReferenceVariables(lambda.Expression)
+		// The results of earlier expressions are read from the scope, not from the point.
+		refVars := make([]string, 0)
+		for _, ref := range ast.FindReferenceVariables(lambda.Expression) {
+			earlier := false
+			for _, as := range n.AsList[:i] {
+				earlier = earlier || as == ref
+			}
+			if !earlier {
+				refVars = append(refVars, ref)
+			}
+		}
 		en.refVarList[i] = refVars
 	}
 	// Create a single pool for the combination of all expressions
